@@ -84,11 +84,23 @@ fn is_suffix_array(t: &[u8], sa: &[usize]) -> Result<(), String> {
     }
     Ok(())
 }
-fn lcp_naive(t: &[u8], sa: &[usize]) -> Vec<usize> {
-    (0..sa.len()).map(|k| if k == 0 { 0 } else {
-        let (a, b) = (&t[sa[k - 1]..], &t[sa[k]..]);
-        a.iter().zip(b.iter()).take_while(|(x, y)| x == y).count()
-    }).collect()
+/// lcp[0] = 0 and lcp[k] = exact length of the common prefix of suffixes sa[k-1], sa[k]:
+/// the first lcp[k] bytes agree and the next byte (if both suffixes have one) differs.
+fn check_lcp(t: &[u8], sa: &[usize], lcp: &[usize]) -> Result<(), String> {
+    let n = t.len();
+    if lcp.len() != sa.len() { return Err(format!("LCP array has {} entries, the suffix array {}", lcp.len(), sa.len())); }
+    for k in 0..sa.len() {
+        let l = lcp[k];
+        if k == 0 { if l != 0 { return Err(format!("lcp[0] = {}", l)); } continue; }
+        let (a, b) = (sa[k - 1], sa[k]);
+        let agree = a + l <= n && b + l <= n && t[a..a + l] == t[b..b + l];
+        let maximal = agree && (a + l == n || b + l == n || t[a + l] != t[b + l]);
+        if !maximal {
+            let real = t[a..].iter().zip(t[b..].iter()).take_while(|(x, y)| x == y).count();
+            return Err(format!("lcp[{}] = {} but suffixes {} and {} share exactly {} bytes", k, l, a, b, real));
+        }
+    }
+    Ok(())
 }
 fn bwt_naive(t: &[u8], sa: &[usize]) -> Vec<u8> {
     let n = t.len();
@@ -142,14 +154,13 @@ fn push_coq(cx: &mut Ctx, alg: usize, thr: usize, resolved: usize, t: &[u8], o: 
 fn sais_class(_resolved: Alg) -> Option<&'static str> { None }
 
 /// Check search results on a correct array.  `range` = (l, r) half-open rank range.
-fn check_search(t: &[u8], sa: &[usize], p: &[u8], range: (usize, usize), srch: Option<(usize, usize)>) -> Result<(), String> {
+fn check_search(occ: &[usize], sa: &[usize], p: &[u8], range: (usize, usize), srch: Option<(usize, usize)>) -> Result<(), String> {
     let (l, r) = range;
     let n = sa.len();
-    let occ = occurrences(t, p);
     if l > r || r > n { return Err(format!("pattern {:?}: range ({}, {}) is not a rank range of 0..{}", p, l, r, n)); }
     let mut got: Vec<usize> = sa[l..r].to_vec();
     got.sort();
-    if got != occ {
+    if got[..] != occ[..] {
         return Err(format!("pattern {:?}: ranks [{}, {}) list positions {:?} but the pattern occurs exactly at {:?}", p, l, r, &got[..got.len().min(12)], &occ[..occ.len().min(12)]));
     }
     if let Some((l2, c)) = srch {
@@ -205,13 +216,9 @@ fn core_case(cx: &mut Ctx, alg_i: usize, variant: u64, t: &[u8], pats: &[Vec<u8>
         Ok(Ok(l)) => {
             let lv = l.as_slice().to_vec();
             if verdict.is_ok() {
-                let want = lcp_naive(t, &sa);
-                if lv != want {
-                    let k = (0..want.len().min(lv.len())).find(|&k| lv[k] != want[k]).unwrap_or(0);
-                    cx.sum.fail("lcp", None, cj.clone(), &format!("lcp[{}] = {:?} but suffixes {} and {} share {} bytes", k, lv.get(k), sa[k.saturating_sub(1)], sa[k], want.get(k).copied().unwrap_or(0)));
-                }
+                if let Err(why) = check_lcp(t, &sa, &lv) { cx.sum.fail("lcp", None, cj.clone(), &why); }
                 for k in 0..=lv.len() { if l.lcp_at(k) != lv.get(k).copied() { cx.sum.fail("lcp", None, cj.clone(), &format!("lcp_at({}) disagrees with as_slice", k)); break; } }
-                cx.sum.dist_max("max_lcp_value", want.iter().copied().max().unwrap_or(0) as u64);
+                cx.sum.dist_max("max_lcp_value", lv.iter().copied().max().unwrap_or(0) as u64);
             }
             obs.lcp = Some(lv);
         }
@@ -224,8 +231,9 @@ fn core_case(cx: &mut Ctx, alg_i: usize, variant: u64, t: &[u8], pats: &[Vec<u8>
             Err(m) => { cx.sum.fail("search", if verdict.is_ok() { None } else { class }, cj.clone(), &format!("search({:?}) panicked: {}", p, m)); }
             Ok((range, srch)) => {
                 if verdict.is_ok() {
-                    if let Err(why) = check_search(t, &sa, p, range, Some(srch)) { cx.sum.fail("search", None, cj.clone(), &why); }
-                    if occurrences(t, p).is_empty() { cx.sum.dist("patterns_absent"); } else { cx.sum.dist("patterns_present"); }
+                    let occ = occurrences(t, p);
+                    if let Err(why) = check_search(&occ, &sa, p, range, Some(srch)) { cx.sum.fail("search", None, cj.clone(), &why); }
+                    if occ.is_empty() { cx.sum.dist("patterns_absent"); } else { cx.sum.dist("patterns_present"); }
                 }
                 obs.pats.push((p.clone(), range, srch));
             }
@@ -257,7 +265,7 @@ fn enhanced_case(cx: &mut Ctx, t: &[u8], force_coq: bool) {
             match e.lcp_array() {
                 None => cx.sum.fail(cell, None, cj.clone(), "with_lcp has no LCP array"),
                 Some(l) => {
-                    if verdict.is_ok() && l.as_slice() != &lcp_naive(t, &sa)[..] { cx.sum.fail(cell, None, cj.clone(), &format!("LCP {:?} is not the adjacent common-prefix lengths", &l.as_slice()[..l.as_slice().len().min(16)])); }
+                    if verdict.is_ok() { if let Err(why) = check_lcp(t, &sa, l.as_slice()) { cx.sum.fail(cell, None, cj.clone(), &why); } }
                     obs.lcp = Some(l.as_slice().to_vec());
                 }
             }
@@ -288,12 +296,17 @@ fn compress_case(cx: &mut Ctx, preset: usize, t: &[u8], pats: &[Vec<u8>], force_
         Ok(Err(e)) => { cx.sum.fail(&cell, if n >= 2 { class } else { None }, cj, &format!("build_suffix_array refused: {:?}", e)); return; }
         Ok(Ok(e)) => e,
     };
+    // IntVec's delta layout makes lcp_at(k) cost O(k): on big arrays probe the ends and a stride
+    let elen = e.len();
+    let probes: Vec<usize> = if elen <= 5000 { (0..elen).collect() } else {
+        let mut v: Vec<usize> = (0..64).chain(elen - 64..elen).collect();
+        let step = elen / 1500 + 1; v.extend((0..elen).step_by(step)); v.sort(); v.dedup(); v };
     let got = guarded(|| {
         let sa: Vec<Option<usize>> = (0..e.len() + 1).map(|k| e.suffix_at_rank(k)).collect();
-        let lcp: Vec<Option<usize>> = (0..e.len() + 1).map(|k| e.lcp_at(k)).collect();
-        (e.len(), e.text_len(), e.is_empty(), sa, lcp)
+        let lcp: Vec<(usize, Option<usize>)> = probes.iter().map(|&k| (k, e.lcp_at(k))).collect();
+        (e.len(), e.text_len(), e.is_empty(), sa, lcp, e.lcp_at(e.len()))
     });
-    let (len, tl, empty, sa_o, lcp_o) = match got { Ok(x) => x, Err(m) => { cx.sum.fail(&cell, None, cj, &format!("accessor panicked: {}", m)); return; } };
+    let (len, tl, empty, sa_o, lcp_o, lcp_end) = match got { Ok(x) => x, Err(m) => { cx.sum.fail(&cell, None, cj, &format!("accessor panicked: {}", m)); return; } };
     if tl != n || empty != (n == 0) { cx.sum.fail(&cell, None, cj.clone(), &format!("text_len {} / is_empty {} for a text of {}", tl, empty, n)); }
     if sa_o[..len].iter().any(|x| x.is_none()) || sa_o[len].is_some() { cx.sum.fail(&cell, None, cj.clone(), "suffix_at_rank is not Some exactly on 0..len"); return; }
     let sa: Vec<usize> = sa_o[..len].iter().map(|x| x.unwrap()).collect();
@@ -301,12 +314,17 @@ fn compress_case(cx: &mut Ctx, preset: usize, t: &[u8], pats: &[Vec<u8>], force_
     let mut obs = Obs { sa: sa.clone(), sa_ok: verdict.is_ok(), lcp: None, bwt: None, pats: vec![] };
     if let Err(why) = &verdict { cx.sum.fail(&cell, class, cj.clone(), &format!("array: {}; {:?}", why, &sa[..sa.len().min(16)])); }
     if with_lcp && n > 0 {
-        if lcp_o[..len].iter().any(|x| x.is_none()) { cx.sum.fail(&cell, None, cj.clone(), "compute_lcp was requested but lcp_at is None inside the array"); }
-        else {
-            let lv: Vec<usize> = lcp_o[..len].iter().map(|x| x.unwrap()).collect();
-            if verdict.is_ok() && lv != lcp_naive(t, &sa) { cx.sum.fail(&cell, None, cj.clone(), &format!("LCP {:?} is not the adjacent common-prefix lengths", &lv[..lv.len().min(16)])); }
-            obs.lcp = Some(lv);
-        }
+        if lcp_o.iter().any(|(_, x)| x.is_none()) || lcp_end.is_some() { cx.sum.fail(&cell, None, cj.clone(), "compute_lcp was requested but lcp_at is not Some exactly on 0..len"); }
+        else if verdict.is_ok() {
+            for (k, l) in &lcp_o {
+                // judge each probed rank on its own: the pair (sa[k-1], sa[k]) and the reported length
+                let pair = if *k == 0 { vec![sa[0]] } else { vec![sa[*k - 1], sa[*k]] };
+                let vals = if *k == 0 { vec![l.unwrap()] } else { vec![0, l.unwrap()] };
+                if let Err(why) = check_lcp(t, &pair, &vals) { cx.sum.fail(&cell, None, cj.clone(), &format!("at rank {}: {}", k, why)); break; }
+            }
+            cx.sum.dist_max("max_lcp_value", lcp_o.iter().map(|(_, l)| l.unwrap()).max().unwrap_or(0) as u64);
+            if probes.len() == len { obs.lcp = Some(lcp_o.iter().map(|(_, l)| l.unwrap()).collect()); }
+        } else if probes.len() == len { obs.lcp = Some(lcp_o.iter().map(|(_, l)| l.unwrap()).collect()); }
     }
     for p in pats {
         if p.is_empty() { continue; } // the wrapper documents "empty pattern -> no result"
@@ -316,7 +334,7 @@ fn compress_case(cx: &mut Ctx, preset: usize, t: &[u8], pats: &[Vec<u8>], force_
             Ok((range, found, cnt)) => {
                 if verdict.is_ok() {
                     let occ = occurrences(t, p);
-                    if let Err(why) = check_search(t, &sa, p, range, None) { cx.sum.fail(&cell, None, cj.clone(), &why); }
+                    if let Err(why) = check_search(&occ, &sa, p, range, None) { cx.sum.fail(&cell, None, cj.clone(), &why); }
                     if found != occ { cx.sum.fail(&cell, None, cj.clone(), &format!("find_pattern({:?}) = {:?}, occurrences are {:?}", p, &found[..found.len().min(12)], &occ[..occ.len().min(12)])); }
                     if cnt != occ.len() { cx.sum.fail(&cell, None, cj.clone(), &format!("count_pattern({:?}) = {}, there are {}", p, cnt, occ.len())); }
                 }
@@ -551,6 +569,24 @@ pub fn run(args: &Args) {
         cx.sum.dist("text_at_adaptive_threshold");
         core_case(&mut cx, 4, 0, &t, &pats, false);
         if i == 0 { enhanced_case(&mut cx, &t, false); }
+    }
+    // ---- LCP values beyond 16 bits (the arrays are stored as u32 / packed integers) ----
+    let nrep = if args.thorough { 6 } else { 2 };
+    for i in 0..nrep {
+        let half = 65_536 + rng.below(600) as usize;
+        let t: Vec<u8> = match i % 3 {
+            0 => vec![*rng.pick(&[0u8, 97, 255]); half + 1],                                   // a^n: lcp[k] = k
+            1 => { let k = rng.range(2, 200); let h: Vec<u8> = (0..half).map(|_| rng.below(k) as u8).collect(); let mut t = h.clone(); t.extend_from_slice(&h); t } // xx
+            _ => { let p = rng.range(2, 7) as usize; (0..half + p).map(|j| (j % p) as u8 + 1).collect() }   // periodic
+        };
+        let n = t.len();
+        let pats = vec![t[n / 3..n / 3 + 5].to_vec(), t[n - 65_540.min(n)..].to_vec(), vec![t[0], t[0].wrapping_add(9)]];
+        cx.sum.dist("text_lcp_above_65535");
+        let t0 = std::time::Instant::now();
+        core_case(&mut cx, if i % 2 == 0 { 0 } else { 4 }, 0, &t, &pats, false);
+        let t1 = std::time::Instant::now();
+        compress_case(&mut cx, if i % 2 == 0 { 1 } else { 3 }, &t, &pats, false);
+        if std::env::var("ZV_C12_TRACE").is_ok() { eprintln!("big case {}: core {:?} compress {:?}", i, t1 - t0, t1.elapsed()); }
     }
     cx.sum.dist_max("coq_cases", cx.shards.len() as u64);
     let sh = cx.shards.write(&args.out);
